@@ -247,6 +247,50 @@ def schedMonitor (vers : Nat) (toks : List String) (o : KV) : Option String :=
         else none
       | _, _ => some "unparsable-end"
 
+/-! The stream-integrity monitor speaks about peers that stay within the record layer's
+non-advancing-record rule (`maxUselessRecords`, conn.go `retryReadRecord` / `handlePostHandshakeMessage`):
+a non-empty application-data record resets the reader's counter, a handshake record sets it to the
+number of post-handshake messages it carries, an empty application-data record or a warning alert
+adds one; above `maxUselessRecords` the reader refuses the stream *by design*. The records each side
+actually put on the wire are reconstructed from the implementation's own tokens; when one direction
+really carried such a run, refusing it is not a stream-integrity failure (the model, which carries the
+same rule, must still agree token by token). -/
+
+def tokSide (hd : String) : String :=
+  match hd.toList with
+  | _ :: c :: _ => String.singleton c
+  | _ => ""
+
+/-- effect of the records mentioned by one token on the counter of the direction they travel in. -/
+def tokEffects (op : Option String) (t : String) : List (String × (Nat → Nat)) :=
+  if t = "x" then [] else
+  let hd := (t.splitOn "/").headD ""
+  let side := tokSide hd
+  let lens := tokLens t
+  if hd.startsWith "w" then lens.map fun _ => (side, fun _ => 0)
+  else if hd.startsWith "r" ∨ hd.startsWith "k" then lens.map fun _ => (side, fun _ => 1)
+  else if hd.startsWith "z" ∨ hd.startsWith "a" then lens.map fun _ => (side, fun n => n + 1)
+  else if hd.startsWith "m" then
+    let k := match op with
+      | some o => (((o.splitOn ":").getD 1 "").toList.filter fun d => d = '1' ∨ d = '2' ∨ d = '3').length
+      | none => 1
+    lens.map fun _ => (side, fun _ => k)
+  else []
+
+/-- the tokens up to and including the first refusal (`toomany`). -/
+def upToRefusal : List String → List String
+  | [] => []
+  | t :: ts => if (t.splitOn "/").contains "toomany" then [t] else t :: upToRefusal ts
+
+/-- did one direction carry more than `maxUselessRecords` consecutive non-advancing records? -/
+def refusableRun (ops res drain : List String) : Bool :=
+  let effs := ((ops.map some).zip res ++ drain.map fun t => (none, t)).flatMap fun (o, t) => tokEffects o t
+  let step := fun (st : Nat × Nat × Bool) (e : String × (Nat → Nat)) =>
+    let (c, s, hit) := st
+    if e.1 = "c" then let c' := e.2 c; (c', s, hit || decide (c' > maxUselessRecords))
+    else let s' := e.2 s; (c, s', hit || decide (s' > maxUselessRecords))
+  (effs.foldl step (0, 0, false)).2.2
+
 /-- the longest run of consecutive KeyUpdate operations issued by one side. -/
 def longestKURun (ops : List String) : Nat :=
   let step := fun (st : String × Nat × Nat) (op : String) =>
@@ -273,12 +317,21 @@ def sched (c : Case) : Verdict :=
     let hasCoal := ops.any (·.startsWith "m")
     let tag := st.tag ++ (if nIgn > maxUselessRecords then ",ignorable" else if hasCoal then ",coalesced"
       else if run > maxUselessRecords then ",kurun" else if hasKU then ",ku" else "")
-    match schedMonitor st.s.vers (implRes ++ implDrain) o with
+    let refused := refusableRun ops implRes implDrain
+    let tag := if refused then tag ++ ",refusable-run" else tag
+    match (if refused then none else schedMonitor st.s.vers (implRes ++ implDrain) o) with
     | some cl => .propFail tag cl
     | none =>
       match simOps C { cl := st.cl, sv := st.sv } ops [] with
       | none => .bad "rec_sched: bad ops"
       | some (m, res) =>
+        if refused then
+          -- a refused stream is dead: model and implementation are compared up to and including the refusal
+          let (_, dr) := simDrain C m
+          let a := upToRefusal (res ++ dr)
+          let b := upToRefusal (implRes ++ implDrain)
+          if a ≠ b then .diff tag (firstDiff a b) else .ok tag
+        else
         if res ≠ implRes then .diff tag (firstDiff res implRes)
         else
           let (m2, dr) := simDrain C m
